@@ -287,7 +287,9 @@ func (p *parser) readType() (t Type, err error) {
 			var token string
 			token, err = p.readToken()
 			if err == nil && 0 < len(token) {
-				if t = p.root.GetType(token); t == nil {
+				// Only among the types, a directive can have the same name.
+				p.root.init()
+				if t = p.root.types.get(token); t == nil {
 					t = &Ref{Base: Base{N: token}}
 				}
 			}
@@ -614,17 +616,13 @@ func (p *parser) readDirUse() (du *DirectiveUse, err error) {
 	if du.Directive == nil {
 		return nil, parseError(p.line, p.col, "directive missing")
 	}
-	switch du.Directive.(type) {
-	case *Directive, *Ref:
-	default:
-		// A type can have the name of a directive, the name after @ is
-		// that of the directive.
-		name := du.Directive.Name()
-		if d := p.root.dirs.get(name); d != nil {
-			du.Directive = d
-		} else {
-			du.Directive = &Ref{Base: Base{N: name}}
-		}
+	// The name after @ is that of a directive, whether or not a type has
+	// the same name.
+	name := du.Directive.Name()
+	if d := p.root.dirs.get(name); d != nil {
+		du.Directive = d
+	} else {
+		du.Directive = &Ref{Base: Base{N: name}}
 	}
 	if p.onDeck == '(' {
 		_, _ = p.readByte() // re-read opening (
